@@ -245,8 +245,10 @@ class C18(Check):
         ctx.phase(self.keywords, ctx, cu, rng)
         ctx.phase(self.colorfuncs, ctx, cu, rng)
         ctx.phase(self.too_large, ctx, cu)
+        self.src_cases = []
         ctx.phase(self.strings, ctx, cu, rng)
         ctx.phase(self.urls, ctx, cu, rng)
+        ctx.phase(self.token_values, ctx, cu)
         ctx.phase(self.separators, ctx, cu, rng)
         ctx.phase(self.order_and_separators, ctx, cu, rng)
         ctx.phase(self.calc_correspondence, ctx, cu, rng)
@@ -779,6 +781,7 @@ class C18(Check):
                 if not ok2:
                     ctx.violate('the written string parses back to the same value and is written unchanged', w,
                                 {'value': r, 'reparsed': pv2[0].value if pv2.length else None}, known=kf)
+            self.src_cases.append(('S', src, r))
             # the model on the stored value: Value.cssText = fmtSimple STRING r
             for ps in (DEFAULT, MINI):
                 lines.append('simple %s STRING %s' % (ps.proto(), enc(r)))
@@ -867,6 +870,29 @@ class C18(Check):
                 if got is None or got[1] != seps or got[0] != want_comps:
                     ctx.violate('the components are written in the same order with the same separators (space, comma, slash)',
                                 dict(w0, prefs=repr(ps), written=out), {'read_back': repr(got), 'want': repr((want_comps, seps))})
+
+    # -- the tokenizer-side value function (Model/NumTok.lean) against the real tokenizer ---------------
+    def token_values(self, ctx, cu):
+        """for every generated string / url() source: the token value the tokenizer delivers = tokenValue, and
+        Value.value / URIValue.uri = stringSourceValue / uriSourceValue (also inside the known regions: the model mirrors
+        the code, findings included)"""
+        from cssutils.tokenize2 import Tokenizer
+        tk = Tokenizer()
+        lines, cases = [], []
+        for kind, src, r in self.src_cases:
+            toks = list(tk.tokenize(src))
+            if len(toks) != 1 or toks[0][0] != ('STRING' if kind == 'S' else 'URI'):
+                ctx.count('tokval:not-one-token')
+                continue
+            lines.append('tokval %s %s' % (kind, enc(src)))
+            cases.append(('token value', src, toks[0][1]))
+            lines.append('srcvalue %s %s' % (kind, enc(src)))
+            cases.append(('Value.value' if kind == 'S' else 'URIValue.uri', src, r))
+        out = ctx.driver(lines) if ctx.model_ok else []
+        for (what, src, got), m in zip(cases, out):
+            ctx.case(key=('tokval', what, src), nontrivial=(got != src), kind='tokval:' + what.split('.')[0].replace(' ', '-'))
+            if m != 'OK ' + enc(got):
+                ctx.disagree(what + ' of a source string / url()', src, got, dec(m[3:]) if m.startswith('OK ') else m)
 
     # -- T18.5: order and separators under every spacer preference (values incl. calc()) ---------------
     SPACER_PREFS = ['spacer', 'listItemSpacer', 'propertyNameSpacer', 'paranthesisSpacer', 'selectorCombinatorSpacer',
@@ -1144,6 +1170,7 @@ class C18(Check):
                             known='C18-backslash-then-hex-escape' if hexq else None)
                 continue
             r = pv[0].uri
+            self.src_cases.append(('U', src, r))
             kf_read = ('C18-backslash-then-hex-escape' if hexq else 'C18-url-line-continuation' if linecont
                        else 'C18-url-edge-escape' if edge_ws else None)
             needs_quotes = any(c in '()\'";,' or c.isspace() or ord(c) < 0x20 or c == '\x7f' for c in want)
